@@ -44,6 +44,12 @@ def run(idx, rep, tier):
     r5(idx, rep)
     r6(idx, rep)
     r7(idx, rep)
+    # stop() in one member of a breadth-first run ends that member only: the others see every later line, the run ends when all stopped
+    from . import c08
+    c08.byline(idx, rep, "R6", "R6", tier, scenarios=("stops_a", "stops_b"), aspects=("schedule", "outcome"))
+    # "the file's final line" is the count LineCounter took with the run's csv dialect (a different dialect counts different records)
+    from . import c06
+    c06.r1(idx, K.as_rule(rep, "R4", keep=lambda key: "LineCounter" in key))
     rep.stats["exhaustive"] = True
 
 
